@@ -67,7 +67,9 @@ func main() {
 		return
 	case "list":
 		for _, s := range specs {
-			fmt.Println(s.ID, s.Pkg, s.Level)
+			if !s.Hidden {
+				fmt.Println(s.ID, s.Pkg, s.Level)
+			}
 		}
 		return
 	}
@@ -140,9 +142,13 @@ func cmdReplay(path string) int {
 		Property string `json:"property"`
 		Tier     string `json:"tier"`
 		Params   string `json:"params"`
+		Spec     string `json:"spec"`
 	}
 	if err := json.Unmarshal(b, &v); err != nil {
 		fatal(2, "%v", err)
+	}
+	if v.Spec != "" {
+		v.Property = v.Spec
 	}
 	sp := findSpec(v.Property)
 	if sp == nil {
